@@ -948,7 +948,7 @@ theorem fields_spec {f k : Nat} (h : SInv env senv f) {fs sfs v b b'}
     cases k with
     | zero => simp [agreeField] at ha
     | succ k =>
-      obtain ⟨g1, c1, hc1, hb1⟩ := h.field (k + 1) ft T s x b b1 ha.1 hd.1 he1
+      obtain ⟨g1, c1, hc1, hb1⟩ := h.field (k + 1) ft T s x b b1 ha.1.2 hd.1 he1
       obtain ⟨g2, c2, hc2, hb2⟩ := h.fields (k + 1) rest srest vs b1 b' ha.2 hd.2 he2
       refine ⟨max g1 g2 + 1, c1.app c2, ?_, ?_⟩
       · rw [specFields_cons, specChunk_mono (Nat.le_max_left g1 g2) hc1,
